@@ -1003,7 +1003,7 @@ func (c *Ctx) UnpackAssigns() []core.Ob {
 		return []core.Ob{o}
 	}
 	o.Pos, o.Func = c.P.Pos(fn.Pos()), core.FnName(fn)
-	v := c.inlineView(fn, 4)
+	v := c.inlineView(fn, 6)
 	st, _ := deref(fn.Params[0].Type()).Underlying().(*types.Struct)
 	if st == nil {
 		o.Status, o.Got = core.Violated, "receiver is not a struct"
@@ -1673,6 +1673,33 @@ func (c *Ctx) StringIndexGuards(include func(*ssa.Function) bool) []core.Ob {
 					if p, isParam := lk.X.(*ssa.Parameter); isParam && fn.Parent() != nil && len(fn.Params) == 1 && p == fn.Params[0] && closureGoesTo(fn, "regexp.(Regexp).ReplaceAllStringFunc") {
 						guarded = true
 						o.Got = "the callback's argument is a match of the pattern"
+					}
+				}
+				// the string is the parameter of an unexported helper: compared with "" / by length at every call site
+				if !guarded && idx == 0 {
+					if p, isParam := lk.X.(*ssa.Parameter); isParam && fn.Parent() == nil && fn.Object() != nil && !fn.Object().Exported() {
+						pi := -1
+						for i, q := range fn.Params {
+							if q == p {
+								pi = i
+							}
+						}
+						sites, ok := 0, true
+						for _, g := range c.Funcs() {
+							for _, ci := range callsIn(g, func(_ string, cc *ssa.CallCommon) bool {
+								sc := cc.StaticCallee()
+								return sc != nil && core.Origin(sc) == fn
+							}) {
+								sites++
+								if pi < 0 || pi >= len(ci.Common().Args) || !nonEmptyAt(ci.Common().Args[pi], ci.Block()) {
+									ok = false
+								}
+							}
+						}
+						if sites > 0 && ok {
+							guarded = true
+							o.Got = fmt.Sprintf("every one of the %d call sites of the helper lies behind a test of the argument against \"\" or of its length", sites)
+						}
 					}
 				}
 				if !guarded {
@@ -4983,6 +5010,42 @@ func positionedWriter(g *ssa.Function) bool {
 				if p, ok := a.(*ssa.Parameter); ok {
 					if bt, ok := p.Type().Underlying().(*types.Basic); ok && bt.Kind() == types.Int64 {
 						return true
+					}
+				}
+			}
+		}
+	}
+	return false
+}
+
+// nonEmptyAt: a comparison of the string v with "" or of len(v) with something lies on a block that
+// dominates at (or, for a switch that is lowered into a chain of tests, an earlier test of the chain).
+func nonEmptyAt(v ssa.Value, at *ssa.BasicBlock) bool {
+	if v.Referrers() == nil {
+		return false
+	}
+	dom := func(b *ssa.BasicBlock) bool { return b != at && b.Dominates(at) }
+	for _, r := range *v.Referrers() {
+		switch x := r.(type) {
+		case *ssa.BinOp:
+			if x.Op != token.EQL && x.Op != token.NEQ {
+				continue
+			}
+			other := x.Y
+			if x.Y == v {
+				other = x.X
+			}
+			if kc, ok := other.(*ssa.Const); ok && kc.Value != nil && kc.Value.Kind() == constant.String && constant.StringVal(kc.Value) == "" && dom(x.Block()) {
+				return true
+			}
+		case *ssa.Call:
+			if bi, isB := x.Common().Value.(*ssa.Builtin); isB && bi.Name() == "len" && x.Referrers() != nil {
+				for _, u := range *x.Referrers() {
+					if cmp, ok := u.(*ssa.BinOp); ok && dom(cmp.Block()) {
+						switch cmp.Op {
+						case token.LSS, token.LEQ, token.GTR, token.GEQ, token.EQL, token.NEQ:
+							return true
+						}
 					}
 				}
 			}
